@@ -30,12 +30,20 @@ def siblings_case(g):
     ops = [{"op": "bp.new", "id": "b"}]
     for _ in range(nsib):
         ops.append({"op": "bp.insert", "id": "b", "pos": -1, "fn": "ramp", "args": [enc(0.5), enc(1)], "dur": enc(na / SR), "name": enc("a")})
+    if r.random() < 0.6:
+        # another segment in front of the wait whose name merely BEGINS with the siblings' base name: not one of them
+        ops.append({"op": "bp.insert", "id": "b", "pos": r.choice([0, -1]), "fn": "ramp", "args": [enc(0.75), enc(0.25)], "dur": enc(2 / SR),
+                    "name": enc(r.choice(["ab", "a_up", "a b"]))})
+        T += 2
     ops += [{"op": "bp.insert", "id": "b", "pos": -1, "fn": "waituntil", "args": [enc(T / SR)], "dur": None, "name": None},
             {"op": "bp.insert", "id": "b", "pos": -1, "fn": "ramp", "args": [enc(1), enc(0)], "dur": enc(r.randint(2, 9) / SR), "name": enc("b")},
             {"op": "bp.setSR", "id": "b", "SR": enc(SR)},
             {"op": "el.new", "id": "es"}, {"op": "el.addBP", "id": "es", "ch": 1, "bp": "b"},
             {"op": "el.getArrays", "id": "es", "time": True}]
-    for n in r.sample([2, na + 1, (T // nsib) - 1 if (T // nsib) - 1 >= 2 else 2, T // nsib + 2, T], 3):
+    extra = T - nsib * na - pad        # samples of the prefix-named segment, if any
+    cands = [n for n in {2, na + 1, max(2, (T - extra) // nsib - 1), (T - extra) // nsib + 2, T} if nsib * n + extra != T]
+    # (never filling the time up to the wait exactly: whether t - elapsed is 0 or a rounding error below 0 is a tie)
+    for n in r.sample(sorted(cands), min(3, len(cands))):
         ops += [{"op": "el.changeDur", "id": "es", "ch": 1, "name": r.choice(["a", "a2"]), "dur": enc(n / SR), "all": True},
                 {"op": "el.getArrays", "id": "es", "time": True}, {"op": "el.duration", "id": "es"}, {"op": "el.points", "id": "es"}]
     return ops
